@@ -201,6 +201,8 @@ func (si *smfimport) mkBars() {
 			var b Bar
 			b.TimeSig[0] = lastNum
 			b.TimeSig[1] = lastdenom
+			b.AbsTicks = currAbsTick
+			currAbsTick += int64(b.Len()) * int64(ticks32th)
 			s.AddBar(b)
 		}
 	}
